@@ -13,6 +13,7 @@ from __future__ import annotations
 
 import ast
 
+from pv.q import text as qtext
 from pv.model import AnalysisError, walk_no_nested, params, UNKNOWN
 from pv import bits as B
 from pv.q import has_stmt, has_if, find_if, returns, body_texts
@@ -185,7 +186,7 @@ def rule_groups(model, rep):
         rets = returns(fn)
         rep.check(rets == ["(~bits, self.__make_padset(bits))"], R2, site("Base64Engine." + attr), "; ".join(rets), "mask is the complement; padset built from the same bits")
     fn = model.func(BIN, "Base64Engine.check_repair_unused")
-    t = ast.unparse(fn)
+    t = qtext(fn)
     rep.check("tail = len(source) & 3" in t and has_if(fn, "tail == 2") and "mask, padset = self._padinfo2" in t and "mask, padset = self._padinfo3" in t, R2,
               site("Base64Engine.check_repair_unused"), "tail 2 -> padinfo2, tail 3 -> padinfo3", "repair picks the mask by length mod 4")
     rep.check("last = self._encode64(self._decode64(last) & mask)" in t and "last = cm[cm.index(last) & mask]" in t, R2, site("Base64Engine.check_repair_unused"),
@@ -204,28 +205,28 @@ def _fmt(rows):
 def rule_engine(model, rep):
     R = "C12.c-engine"
     fn = model.func(BIN, "Base64Engine.encode_bytes")
-    t = ast.unparse(fn)
+    t = qtext(fn)
     rep.check("chunks, tail = divmod(len(source), 3)" in t and "gen = self._encode_bytes(next_value, chunks, tail)" in t and returns(fn) == ["bytes(map(self._encode64, gen))"], R,
               site("Base64Engine.encode_bytes"), "divmod(len, 3); map(_encode64)", "encode: 3-byte groups, symbols mapped through the alphabet")
     fn = model.func(BIN, "Base64Engine.decode_bytes")
-    t = ast.unparse(fn)
+    t = qtext(fn)
     rep.check("chunks, tail = divmod(len(source), 4)" in t and has_if(fn, "tail == 1") and "next_value = map(self._decode64, source).__next__" in t, R,
               site("Base64Engine.decode_bytes"), "divmod(len, 4); tail 1 refused", "decode: 4-symbol groups; a length of 1 mod 4 raises ValueError",
               witness="truncated text decodes instead of raising")
     fn = model.func(BIN, "Base64Engine.__init__")
-    t = ast.unparse(fn)
+    t = qtext(fn)
     rep.check("if len(charmap) != 64:" in t and "if len(set(charmap)) != 64:" in t, R, site("Base64Engine.__init__"), "64 distinct", "alphabet must have 64 distinct characters")
     rep.check("lookup = dict(((value, idx) for idx, value in enumerate(charmap)))" in t and "self._encode64 = charmap.__getitem__" in t, R, site("Base64Engine.__init__"),
               "decode map is the inverse of the alphabet", "decode map inverts the encode map")
     big = find_if(fn, "big")
-    ok = bool(big) and "self._encode_bytes = self._encode_bytes_big" in ast.unparse(big[0].body[0]) and "self._decode_bytes = self._decode_bytes_big" in ast.unparse(big[0].body[1]) \
-        and "self._encode_bytes = self._encode_bytes_little" in ast.unparse(big[0].orelse[0]) and "self._decode_bytes = self._decode_bytes_little" in ast.unparse(big[0].orelse[1])
+    ok = bool(big) and "self._encode_bytes = self._encode_bytes_big" in qtext(big[0].body[0]) and "self._decode_bytes = self._decode_bytes_big" in qtext(big[0].body[1]) \
+        and "self._encode_bytes = self._encode_bytes_little" in qtext(big[0].orelse[0]) and "self._decode_bytes = self._decode_bytes_little" in qtext(big[0].orelse[1])
     rep.check(ok, R, site("Base64Engine.__init__"), "big -> *_big, else *_little", "endianness flag selects the matching encoder *and* decoder",
               witness="a big-endian engine decodes with the little-endian routine")
     for q, want in (("Base64Engine.encode_transposed_bytes", "tmp = bytes((source[off] for off in offsets))"),):
         rep.check(has_stmt(model.func(BIN, q), want), R, site(q), want, "transposed encode gathers source[off] in offset order")
     fn = model.func(BIN, "Base64Engine.decode_transposed_bytes")
-    t = ast.unparse(fn)
+    t = qtext(fn)
     rep.check("for off, char in zip(offsets, tmp):" in t and "buf[off] = char" in t, R, site("Base64Engine.decode_transposed_bytes"), "buf[off] = char", "transposed decode scatters back to buf[off] (inverse of the gather)")
     # ---- integer codecs
     R2 = "C12.d-int-codecs"
@@ -287,11 +288,11 @@ def rule_engine(model, rep):
                   witness="decode_intN(encode_intN(v)) != v")
         rep.check(has_if(fn, f"len(source) != {n}"), R2, site("Base64Engine." + meth), f"len(source) != {n} -> ValueError", "wrong length raises ValueError")
     fn = model.func(BIN, "Base64Engine._encode_int")
-    t = ast.unparse(fn)
+    t = qtext(fn)
     rep.check("pad = -bits % 6" in t and "bits += pad" in t and "itr = range(bits - 6, -6, -6)" in t and "value <<= pad" in t and "itr = range(0, bits, 6)" in t and
               "(value >> off & 63 for off in itr)" in t, R2, site("Base64Engine._encode_int"), "pad, offsets, mask 0x3F", "generic encoder: pad to a multiple of 6, big = high digits first with value shifted by pad")
     fn = model.func(BIN, "Base64Engine._decode_int")
-    t = ast.unparse(fn)
+    t = qtext(fn)
     rep.check("pad = -bits % 6" in t and "for c in source if big else reversed(source):" in t and "out = (out << 6) + decode(c)" in t and "out >>= pad" in t and "out &= (1 << bits) - 1" in t, R2,
               site("Base64Engine._decode_int"), "accumulate 6 bits per char; strip pad", "generic decoder: inverse accumulation; padding bits dropped (big: low, little: high)")
     rep.check("if len(source) != chars:" in t, R2, site("Base64Engine._decode_int"), "length check", "wrong length raises ValueError")
@@ -346,7 +347,7 @@ def rule_alphabets(model, rep):
         rep.check(returns(fn)[0].endswith("b2a_base64(data).rstrip(_BASE64_STRIP)"), R2, site("b64s_encode", un), returns(fn)[0], "encode: standard base64, padding and newline stripped")
         fn = model.func(un, "b64s_decode")
         offvar = "off" if un == BIN else "offset"
-        t = ast.unparse(fn)
+        t = qtext(fn)
         i2 = find_if(fn, f"{offvar} == 2")
         i3 = find_if(fn, f"{offvar} == 3")
         ok = bool(i2) and [ast.unparse(x) for x in i2[0].body] == ["data += _BASE64_PAD2"] and bool(i3) and [ast.unparse(x) for x in i3[0].body] == ["data += _BASE64_PAD1"] \
@@ -363,10 +364,10 @@ def rule_alphabets(model, rep):
         rep.check(ok, R2, site("ab64_decode", un), ast.unparse(last)[:80], "ab64 decode translates '.' back to '+' on the common path (text input is encoded to bytes first)",
                   witness="salts / digests containing '.' are decoded wrongly (or only for one input type): verify() fails for ~29% of random salts")
         enc = [n for n in walk_no_nested(fn) if isinstance(n, ast.If) and ast.unparse(n.test) == "isinstance(data, str)"]
-        rep.check(len(enc) == 1 and "data = data.encode('ascii')" in ast.unparse(enc[0]), R2, site("ab64_decode", un), "str -> ascii bytes", "text input is converted, then handled like bytes")
+        rep.check(len(enc) == 1 and "data = data.encode('ascii')" in qtext(enc[0]), R2, site("ab64_decode", un), "str -> ascii bytes", "text input is converted, then handled like bytes")
     # base32
     fn = model.func(BIN, "b32decode")
-    t = ast.unparse(fn)
+    t = qtext(fn)
     tr = [n for n in walk_no_nested(fn) if isinstance(n, ast.Call) and isinstance(n.func, ast.Attribute) and n.func.attr == "translate"]
     ok = len(tr) == 1 and model.unit(BIN).enclosing(tr[0], ast.If) is None
     rep.check(ok, R2, site("b32decode"), ast.unparse(tr[0])[:50] if tr else "<none>", "typo correction applies to text and bytes input alike",
@@ -376,7 +377,7 @@ def rule_alphabets(model, rep):
     rep.check(v == b"=" * 8, R2, site("_b32_decode_pad"), repr(v), "pad source is 8 '='")
     rep.check(returns(fn) == ["_b32decode(source, True)"], R2, site("b32decode"), "; ".join(returns(fn)), "decoding is case-insensitive (casefold=True)")
     fn = model.func(BIN, "b32encode")
-    rep.check("rstrip(B_EQUAL)" in ast.unparse(fn), R2, site("b32encode"), "strip '='", "encode strips padding")
+    rep.check(qtext(fn).loose("rstrip(B_EQUAL)"), R2, site("b32encode"), "strip '='", "encode strips padding")
 
 
 # ----------------------------------------------------------------------------- copies
@@ -400,7 +401,7 @@ def _norm_body(fn, drop_try=False):
     for st in fn.body:
         if isinstance(st, ast.Expr) and isinstance(st.value, ast.Constant):
             continue
-        t = ast.unparse(st)
+        t = qtext(st)
         t = t.replace("binascii.", "").replace("_BinAsciiError", "Error")
         out.append(t)
     return out
